@@ -22,7 +22,8 @@ invariant("Lock", "wellformed",
 
 kernel_fact("K10.not_parked_privately",
             "forall(Notification, lambda n: implies(n.lock is not None or n.queue is not None, "
-            "       forall(n._waiting, lambda w: w[0] is not me)))",
+            "       forall(n._waiting, lambda w: w[0] is not me) and "
+            "       implies(len(n._waiting) > 0, n._waiting[0][0] is not me)))",
             on_resume="forall(Notification, lambda n: implies((n.lock is not None or n.queue is not None) "
                       "       and forall_new(Interrupt, lambda i: i.sub is not n), "
                       "       forall(n._waiting, lambda w: w[0] is not me)))",
@@ -74,7 +75,8 @@ contract("usim._primitives.locks.Lock.__release__",
              "        self._owner is old(self._notification._waiting)[0][0] "
              "        and self._notification._waiting == old(self._notification._waiting)[1:] "
              "        and loop._pending == old(loop._pending) + [Activation(old(self._notification._waiting)[0][0], old(self._notification._waiting)[0][1])])",
-             "implies(len(old(self._notification._waiting)) == 0, self._owner is None and loop._pending == old(loop._pending))",
+             "implies(len(old(self._notification._waiting)) == 0, self._owner is None and loop._pending == old(loop._pending) "
+             '        and unchanged("Interrupt.scheduled", "Interrupt.target", "Interrupt.due"))',
              "self._depth == 0"],
          ghost_exit=["self.grant = old(self._notification._waiting)[0][1] if len(old(self._notification._waiting)) > 0 else None"],
          modifies=["Lock._owner@self", "Lock.grant@self", "Notification._waiting@self._notification", "Loop._pending@loop",
@@ -113,9 +115,16 @@ contract("usim._primitives.locks.Lock.__aexit__",
                   "implies(old(self._depth) > 1, self._owner is me and self._depth == old(self._depth) - 1 "
                   "        and self._notification._waiting == old(self._notification._waiting))",
                   "implies(old(self._depth) == 1 and len(old(self._notification._waiting)) == 0, self._owner is None and self._depth == 0)",
+                  "implies(old(self._depth) > 1 or len(old(self._notification._waiting)) == 0, "
+                  '        unchanged("Interrupt.scheduled", "Interrupt.target", "Interrupt.due") and loop._pending == old(loop._pending))',
+                  "implies(old(self._depth) == 1 and len(old(self._notification._waiting)) > 0, "
+                  "        loop._pending == old(loop._pending) + [Activation(old(self._notification._waiting)[0][0], old(self._notification._waiting)[0][1])])",
                   "implies(old(self._depth) == 1 and len(old(self._notification._waiting)) > 0, "
                   "        self._owner is old(self._notification._waiting)[0][0] and self._depth == 0 "
                   "        and self._notification._waiting == old(self._notification._waiting)[1:])"],
+         modifies=["Lock._owner@self", "Lock._depth@self", "Lock.grant@self", "Notification._waiting@self._notification",
+                   "Loop._pending@loop", "Interrupt.scheduled@self._notification._waiting[0][1]",
+                   "Interrupt.target@self._notification._waiting[0][1]", "Interrupt.due@self._notification._waiting[0][1]", "Interrupt.pos"],
          unexpected_ok=["AssertionError"],
          guarantee=["forall(Lock, lambda L: implies(old(L._owner) is not None and old(L._owner) is not me and old(L._depth) >= 1, "
                     "       L._owner is old(L._owner) and L._depth == old(L._depth)))"],
